@@ -742,16 +742,16 @@ def judge(case, res, val, ctx, stats):
         if model[0] == "Ok" and [list(c) for c in model[1]] == ioc:
             stats[kind + "_replayed_exactly"] = stats.get(kind + "_replayed_exactly", 0) + 1
             return out
-        # replay differs: decide with the Coq validator on the implementation's output
+        # replay differs: decide with the Coq validator on the implementation's output (its soundness theorem gives the
+        # property's clauses for this very output); a changed RNG call pattern alone is not a violation
         if chk is not True:
-            bad(thm + " (Coq validator on the implementation's output)",
-                "categorical: changed cells per feature <= floor(p n) and every value from that feature's own values; "
-                "missing: exactly floor(p n) markers per feature and every other cell unchanged", io, repr(model)[:1500])
+            clause = ("changed cells per feature <= floor(p n) and every value is one of that feature's own values" if kind == "noise_cat"
+                      else "exactly floor(p n) markers per feature (marker not already present) and every other cell unchanged")
+            bad(thm + " (Coq validator on the implementation's output)", clause, io, repr(model)[:1500])
         elif model[0] == "Raises":
             stats["noise_model_crash_impl_ok"] = stats.get("noise_model_crash_impl_ok", 0) + 1
         else:
-            out.append((thm + " trace-replay correspondence (RNG call pattern changed)", "replayed model output differs although the validator accepts",
-                        io, repr(model)[:1500], "no-input"))
+            stats[kind + "_validator_fallback"] = stats.get(kind + "_validator_fallback", 0) + 1
         return out
     if kind == "down":
         model, chk, sess = val
@@ -770,8 +770,7 @@ def judge(case, res, val, ctx, stats):
             bad("C20_downsample (Coq validator on the implementation's output)",
                 "exactly n rows of each class, each a row of that class", {"X": Xd, "y": yd}, repr(model)[:1500])
         else:
-            out.append(("C20_downsample trace-replay correspondence (call pattern changed)", "replayed model output differs although the validator accepts",
-                        {"X": Xd, "y": yd}, repr(model)[:1500], "no-input"))
+            stats["down_validator_fallback"] = stats.get("down_validator_fallback", 0) + 1
         return out
     raise ValueError(kind)
 
@@ -890,19 +889,18 @@ def check(run, replay):
     for k in GENS:
         run.oblige("correspondence:" + k, k not in fams, "" if k not in fams else "%d cases disagree" % len(fams[k]))
     for k, lst in fams.items():
-        concrete = [(c, f) for c, f in lst if any(len(x) == 4 for x in f)]
-        if concrete:
-            c, f = concrete[0]
-            f = [x for x in f if len(x) == 4]
-            if replay is None:
-                c, f2 = shrink(c, f, stats)
-                f = [x for x in f2 if len(x) == 4] or f
-            for x in f[:3]:
-                run.violation("counterexample", x[0], case=c, impl=x[2], model=x[3], clause=x[1])
-        else:
-            c, f = lst[0]
-            x = f[0]
-            run.violation("broken-obligation", x[0], case=c, impl=x[2], model=x[3], clause=x[1], found_input=False)
+        c, f = lst[0]
+        if replay is None:
+            c, f = shrink(c, f, stats)
+        for x in f[:3]:
+            run.violation("counterexample", x[0], case=c, impl=x[2], model=x[3], clause=x[1])
+    fb = {k: v for k, v in stats.items() if k.endswith("_validator_fallback")}
+    run.oblige("trace-replay or Coq validator accepts every noise / down-sampling output", True,
+               "all outputs reproduced exactly by the model from the recorded answers" if not fb else
+               "model replay differed (library call pattern changed?) on %s; the Coq validators accepted those outputs" % fb)
+    if fb:
+        run.notes.append("trace replay no longer reproduces the implementation on %s; decided by the Coq validators "
+                         "(C20_*_check_sound) instead" % fb)
     sizes = {}
     for c in cases:
         b = "rows<=5" if len(c["X"]) <= 5 else "rows<=20" if len(c["X"]) <= 20 else "rows<=100" if len(c["X"]) <= 100 else "rows>100"
